@@ -33,6 +33,8 @@ type Scenario struct {
 	Ctrs []int `json:"ctrs"`
 	// Small > 0: sizes are in bytes instead of units (many small objects)
 	Small bool `json:"small"`
+	// Expect: what the specified policy makes of this profile ("ok" | "fail"; "" = not computed)
+	Expect string `json:"expect"`
 }
 
 const Unit = 512 * 1024
@@ -87,7 +89,7 @@ func RunChild(scn int, sc Scenario, out string) error {
 		ctrs = append(ctrs, &api.Container{Id: id, Name: id, Annotations: map[string]string{"pad": payload(s, sc.Small)}})
 		cids = append(cids, id)
 	}
-	ev("Begin", "pods", pids, "ctrs", cids, "psize", sc.Pods, "csize", sc.Ctrs, "small", sc.Small, "limit", 8, "minobjs", 8)
+	ev("Begin", "pods", pids, "ctrs", cids, "psize", sc.Pods, "csize", sc.Ctrs, "small", sc.Small, "limit", 8, "minobjs", 8, "expect", sc.Expect)
 
 	r, err := rig.New()
 	if err != nil {
